@@ -12,7 +12,7 @@ template <class T> struct Case { T a, b, c; };
 template <class T> static T rnd_below(Rng& g, T n) { return (T)g.below((uint64_t)n); }
 
 // Operand pairs (x,y) in [0,p) hitting the boundary classes named in the property.
-template <class T> static std::vector<Case<T>> pair_cases(T p, Rng& g, int nrand) {
+template <class T> static std::vector<Case<T>> pair_cases(T p, Rng& g, int nrand, bool structured = true) {
   std::vector<Case<T>> v;
   T specials[] = {0, 1, 2, (T)(p - 1), (T)(p - 2), (T)(p / 2), (T)(p / 2 + 1)};
   for (T x : specials) for (T y : specials) v.push_back({x, y, 0});
@@ -28,7 +28,7 @@ template <class T> static std::vector<Case<T>> pair_cases(T p, Rng& g, int nrand
   }
   // structured magnitudes: operands 2^b, 2^b+1, 2^(b+1)-1, 3*2^(b-1) with b1+b2 around the limb width, so that the
   // products straddle p, 2p, 3p, 2^w and 2^(w+1) (half-limb fast paths, quotient digits, conditional subtractions)
-  if (!env_u64("VERIF_NOSTRUCT", 0)) {
+  if (structured && !env_u64("VERIF_NOSTRUCT", 0)) {
     const int w = bits<T>();
     auto mags = [&](int b, T out[4]) {
       T one = 1;
@@ -167,10 +167,13 @@ template <class T> static void run_width(Rng& g, size_t quick_rows, int nrand) {
   if (env_u64("VERIF_ALLROWS", 0)) quick_rows = P::kMaxNbModuli;
   auto rows = rows_to_visit(P::kMaxNbModuli, quick_rows, g);
   const size_t nrot = thorough() ? 4 : 2;
+  size_t row_no = 0;
   for (size_t cm : rows) {
     const T p = P::P[cm];
-    auto pc = pair_cases<T>(p, g, nrand);
-    auto sc = shoup_cases<T>(p, g, nrand);
+    // thorough tier visits every row; the full case set on the first 48 of them, a light one on the rest
+    const bool heavy = !thorough() || row_no++ < 48;
+    auto pc = pair_cases<T>(p, g, heavy ? nrand : 3, heavy);
+    auto sc = shoup_cases<T>(p, g, heavy ? nrand : 3);
     std::vector<std::array<T, 2>> c2; std::vector<std::array<T, 3>> c3; std::vector<std::array<T, 1>> c1;
     for (auto& c : pc) { c2.push_back({c.a, c.b}); c3.push_back({c.c, c.a, c.b}); }
     for (size_t rot = 0; rot < nrot; rot++) {
